@@ -191,7 +191,7 @@ fn vq_c04_ri_on_transmit() {
         // RFC 9000 19.11: MAX_STREAMS type 0x12 (bidirectional) / 0x13 (unidirectional), Maximum Streams (i)
         let expect_tag = if id & 2 == 0 { 0x12 } else { 0x13 };
         assert!(tag == expect_tag, "C04/ri.on_transmit/frame_is_max_streams_of_the_stream_type");
-        assert!(wire as i128 == new.advertised, "C04/ri.on_transmit/max_streams_value_is_advertised");
+        assert!(ri_transmit_wire_is_advertised(new, true, wire as i128), "C04/ri.on_transmit/max_streams_value_is_advertised");
         assert!(wire as i128 <= new.closed + new.local_limit && wire as i128 <= max_streams_max(), "C04/ri.on_transmit/wire_credit_le_closed_plus_limit_and_2_60");
         assert!(r.is_ok(), "C04/ri.on_transmit/ok_when_written");
     }
